@@ -45,8 +45,20 @@ package system
 //@ func lookupInterface
 //@   ensures R1: result1 == nil ==> result0 != nil
 //@   opt trusted reads operating-system state only
+// checkInterface (C10): a failure to list the interface's addresses reaches the
+// caller with its class intact (a system call error stays recoverable, a
+// permission error stays fatal); every other failure is link-not-ready.
+// (assumed of the address listing: it holds no typed-nil entries)
+//@ funcparam system.checkInterface.addrFunc() (as, aerr)
+//@   ensures A1: forall(k, 0, len(as), as[k].val > 0)
 //@ func checkInterface
-//@   opt trusted reads operating-system state only
+//@   requires P1: ifi != nil && addrFunc != nil
+//@   ghost local aerr Iface
+//@   at call addrFunc() (as, ae): ghost.aerr = ae
+//@   loop 1 invariant L1 [C10]: 0 <= rangeindex + 1 && rangeindex + 1 <= len(addrs) && ghost.aerr == nil
+//@   ensures E1 [C10]: ghost.aerr != nil ==> result != nil && isSyscallErr(result) == isSyscallErr(ghost.aerr) && isPermSyscall(result) == isPermSyscall(ghost.aerr) && linkErr(result) == linkErr(ghost.aerr)
+//@   ensures E2 [C10]: result != nil && ghost.aerr == nil ==> errIs(result, ErrLinkNotReady)
+//@   opt safety [C10]
 
 // What Dial may assume about DialFunc (dial refines it; tests may substitute it).
 //@ funcfield system.Dialer.DialFunc() (dctx, err)
